@@ -126,11 +126,31 @@ def coq_hash():
     return h.hexdigest()[:16]
 
 
-def build_coq(clean=False, timeout=3000):
-    """Full .vo build with coq_makefile (never -vos). Returns (ok, log)."""
+COQ_WARN = "-arg -w -arg -notation-overridden,-deprecated-hint-without-locality,-deprecated-instance-without-locality,-ambiguous-paths"
+
+
+def gen_coqproject():
+    """_CoqProject is generated: every .v under coq/{lib,models,proofs,props} (so adding a
+    property means adding files only). Rewritten only when its content changes."""
+    files = []
+    for d in ("lib", "models", "proofs", "props"):
+        dd = os.path.join(COQ, d)
+        if os.path.isdir(dd):
+            files += sorted(os.path.join(d, f) for f in os.listdir(dd) if f.endswith(".v") and not f.startswith("."))
+    txt = "-Q . Got\n" + COQ_WARN + "\n\n" + "\n".join(files) + "\n"
+    proj = os.path.join(COQ, "_CoqProject")
+    if not os.path.exists(proj) or open(proj).read() != txt:
+        with open(proj, "w") as f:
+            f.write(txt)
+    return proj
+
+
+def build_coq(clean=False, timeout=3000, target=None):
+    """Full .vo build with coq_makefile (never -vos). target=None builds everything;
+    target="props/C14.vo" builds that file and everything it depends on. Returns (ok, log)."""
     with BuildLock():
         mk = os.path.join(COQ, "Makefile.coq")
-        proj = os.path.join(COQ, "_CoqProject")
+        proj = gen_coqproject()
         if clean and os.path.exists(mk):
             sh(["make", "-f", "Makefile.coq", "clean"], cwd=COQ, timeout=300)
         if (not os.path.exists(mk)) or os.path.getmtime(mk) < os.path.getmtime(proj):
@@ -138,27 +158,53 @@ def build_coq(clean=False, timeout=3000):
                          timeout=120)
             if rc != 0:
                 return False, out
-        rc, out = sh(["timeout", str(timeout), "make", "-f", "Makefile.coq", "-j16"], cwd=COQ,
-                     timeout=timeout + 60)
+        rc, out = sh(["timeout", str(timeout), "make", "-k", "-f", "Makefile.coq", "-j16"] + ([target] if target else []),
+                     cwd=COQ, timeout=timeout + 60)
         return rc == 0, out
 
 
+def gen_extract():
+    """Extract.v is generated from the fragments coq/extract/*.ext ("import M" /
+    "export ident ..." lines). ExtrOcamlBasic only; nat/positive/N/Z stay inductives."""
+    imports, exports = [], []
+    ed = os.path.join(COQ, "extract")
+    for f in sorted(os.listdir(ed)):
+        if not f.endswith(".ext"):
+            continue
+        for line in open(os.path.join(ed, f)):
+            line = line.split("#")[0].strip()
+            if line.startswith("import "):
+                imports += [m for m in line.split()[1:] if m not in imports]
+            elif line.startswith("export "):
+                exports += [m for m in line.split()[1:] if m not in exports]
+    return ("From Got Require Import Base %s.\nRequire Extraction.\nRequire Import ExtrOcamlBasic.\n"
+            "Extraction Language OCaml.\nSet Extraction KeepSingleton.\n\nExtraction \"model.ml\"\n"
+            "  N.add Z.add Nat.add N.of_nat N.to_nat Z.of_nat Z.to_nat Z.of_N Z.to_N\n  %s.\n" % (" ".join(imports), "\n  ".join(exports)))
+
+
 def build_ocaml(timeout=900):
-    """Extraction (coqc in /verif/ocaml) and the OCaml driver. Incremental."""
+    """Extraction (coqc run with cwd=/verif/ocaml) and the OCaml driver. Incremental."""
     with BuildLock():
         drv = os.path.join(OCAML, "driver")
-        srcs = [p for p in coq_sources() if "/models/" in p or "/lib/" in p or "/extract/" in p]
-        srcs += [os.path.join(OCAML, f) for f in ("conv.ml", "driver.ml")]
+        ed = os.path.join(COQ, "extract")
+        srcs = [p for p in coq_sources() if "/models/" in p or "/lib/" in p]
+        srcs += [os.path.join(ed, f) for f in os.listdir(ed) if f.endswith(".ext")]
+        mls = ["registry.ml"] + sorted(f for f in os.listdir(OCAML) if f.startswith("drv_") and f.endswith(".ml")) + ["main.ml"]
+        srcs += [os.path.join(OCAML, f) for f in ["conv.ml"] + mls]
         newest = max(os.path.getmtime(p) for p in srcs)
         if os.path.exists(drv) and os.path.getmtime(drv) >= newest:
             return True, "driver up to date"
-        rc, out = sh(["timeout", str(timeout), "coqc", "-Q", COQ, "Got",
-                      os.path.join(COQ, "extract", "Extract.v")], cwd=OCAML, timeout=timeout + 60)
+        ev = os.path.join(OCAML, "Extract.v")
+        with open(ev, "w") as f:
+            f.write(gen_extract())
+        rc, out = sh(["timeout", str(timeout), "coqc", "-Q", COQ, "Got", ev], cwd=OCAML, timeout=timeout + 60)
         if rc != 0:
             return False, out
-        rc, out2 = sh(["ocamlfind", "ocamlopt", "-w", "-a"] +
-                      ["model.mli", "model.ml", "conv.ml", "driver.ml", "-o", "driver"],
+        rc, out2 = sh(["ocamlfind", "ocamlopt", "-O2", "-w", "-a", "model.mli", "model.ml", "conv.ml"] + mls + ["-o", "driver"],
                       cwd=OCAML, timeout=timeout)
+        if rc != 0:
+            rc, out2 = sh(["ocamlfind", "ocamlopt", "-w", "-a", "model.mli", "model.ml", "conv.ml"] + mls + ["-o", "driver"],
+                          cwd=OCAML, timeout=timeout)
         return rc == 0, out + out2
 
 
@@ -188,9 +234,9 @@ ALLOWED_AXIOMS = set([
 def proof_gate(prop_id, proof_files):
     """Returns dict(ok, failures[list], obligations, discharged, theorems, assumptions, log)."""
     res = dict(ok=True, failures=[], obligations=0, discharged=0, theorems=[], assumptions={},
-               checker_cmd="coq_makefile -f _CoqProject -o Makefile.coq && make -f Makefile.coq -j16 "
-                           "(coqc 8.16.1, full .vo) ; coqc props/%s.v (Print Assumptions)" % prop_id)
-    ok, log = build_coq()
+               checker_cmd="coq_makefile -f _CoqProject -o Makefile.coq && make -f Makefile.coq -j16 props/%s.vo "
+                           "(coqc 8.16.1, full .vo of the property file and everything it depends on) ; coqc props/%s.v (Print Assumptions)" % (prop_id, prop_id))
+    ok, log = build_coq(target="props/%s.vo" % prop_id)
     res["log"] = log[-4000:]
     bad = grep_gate()
     if bad:
